@@ -107,3 +107,49 @@ def all_walkers(ctx, rule):
     for f in fs:
         vs[f.qual] = check_walker(ctx, rule, f)
     return fs, vs
+
+
+def check_cic(ctx, rule):
+    """R03-g / R08-0: checkpoint_if_cancelled spins (yielding) until the cancellation is thrown, never returns normally in a
+    cancelled scope, and does not suspend on its normal-return path (summary A3 of the analysis)."""
+    from sa.engine.facts import atom
+    cic = ctx.fn("AsyncIOBackend.checkpoint_if_cancelled", A)
+    v2, adv = loop_var(cic)
+    if not ctx.need(rule, cic, "ancestor walk in checkpoint_if_cancelled", 1 if v2 else 0, 1):
+        return
+    loops = [n for n in own_walk(cic.node) if isinstance(n, ast.While) and any(x is adv for x in ast.walk(n))]
+    loop_ids = {id(l) for l in loops}
+    ck = {f"{v2}.cancel_called", f"{v2}._cancel_called"}
+
+    def step_g(st, e, c):
+        if e == "head":
+            if st == "cancelled":
+                return Bad("a cancelled scope is seen but the loop goes on without yielding (await sleep(0)): busy loop / no cancellation point")
+            return None
+        if e == "ctest" and not c.is_exc:
+            return "cancelled" if any((k, True) in c.facts for k in ck) else st
+        if e == "sleep":
+            return "slept" if not c.is_exc else st
+        if e == "advance" and st is not None:
+            return Bad("checkpoint_if_cancelled walks on after having seen a cancelled scope")
+        return st
+
+    def at_exit_g(kind, st, facts):
+        if kind == "return" and st is not None:
+            return "checkpoint_if_cancelled returns normally although the current scope is effectively cancelled (the operation would proceed with its effect)"
+        return None
+
+    def is_ctest(frag, node):
+        return node.kind == "test" and atom(node.node)[0] in ck
+
+    ctx.paths(rule, cic, [("head", [lambda frag, node: node.kind == "loop_head" and id(node.node) in loop_ids]), ("ctest", [is_ctest]),
+                          ("sleep", "await sleep(0)"), ("advance", f"{v2} = {v2}._parent_scope")], step_g, None, at_exit_g,
+              instance="spins (yielding) until the cancellation is thrown; never returns in a cancelled scope")
+
+    def at_exit_s2(kind, st, facts):
+        if kind == "return" and st:
+            return "checkpoint_if_cancelled suspends on a path that returns normally (summary A3 of the analysis would be wrong)"
+        return None
+
+    ctx.paths(rule, cic, [("susp", "await $X")], lambda st, e, c: True if not c.is_exc else st, False, at_exit_s2,
+              instance="A3: no suspension on the normal-return path")
